@@ -257,6 +257,8 @@ fn exec_seq<T: 'static + Send + Sync + Clone>(chain: Vec<Node>) -> Result<Vec<T>
     let mut buf: Option<Partition> = None;
 
     for node in chain {
+        #[cfg(feature = "verif-hooks")]
+        crate::verif_hooks::yield_point("runner:stage");
         buf = Some(match node {
             Node::CoGroup {
                 left_chain,
@@ -468,6 +470,8 @@ fn exec_par<T: 'static + Send + Sync + Clone>(chain: &[Node], partitions: usize)
 
     let mut i = 0usize;
     while i < rest.len() {
+        #[cfg(feature = "verif-hooks")]
+        crate::verif_hooks::yield_point("runner:stage");
         match &rest[i] {
             Node::Stateless(_) => {
                 let mut ops = Vec::new();
